@@ -30,6 +30,7 @@ class Refused(Exception):
 
 
 ERR_TAGS = {"ValueError": "E_Value", "TypeError": "E_Type", "XYZError": "E_XYZ"}
+OPT = {"optZ": "Z", "optB": "bool"}      # optional types and what they hold
 
 
 def key_of(node):
@@ -129,7 +130,7 @@ class Translator:
                 if not (isinstance(rhs, ast.Constant) and rhs.value is None):
                     raise Refused(n, "is-compare with non-None")
                 a, ta = self.expr(lhs, env)
-                if ta == "optZ":
+                if ta in OPT:
                     c = f"(match {a} with None => true | Some _ => false end)"
                 elif ta == "none":
                     c = "true"
@@ -244,10 +245,10 @@ class Translator:
                 if isinstance(test.ops[0], ast.IsNot):
                     is_none = not is_none
                 return then_k(env) if is_none else else_k(env)
-            if v is not None and v[1] == "optZ":
+            if v is not None and v[1] in OPT:
                 inner = env.fresh(k + "_v")
                 none_arm = env.set(k, "None", "none")
-                some_arm = env.set(k, inner, "Z")
+                some_arm = env.set(k, inner, OPT[v[1]])
                 if isinstance(test.ops[0], ast.Is):
                     a, b = then_k(none_arm), else_k(some_arm)
                 else:
@@ -328,6 +329,9 @@ class Translator:
         if k is None:
             raise Refused(stmt, "assignment target")
         c, ty = self.expr(value, env)
+        if ty in ("none", "placeholder"):
+            # not a Gallina value: only its provenance is tracked
+            return cont(env.set(k, c, ty))
         nm = env.fresh(k)
         return f"(let {nm} := {c} in\n {cont(env.set(k, nm, ty))})"
 
